@@ -207,6 +207,14 @@ class Stdlib:
                 raise PyRaise('IndexError')
             return idx + n if idx < 0 else idx
         neg = ops_cmp('<', idx, 0)
+        c = cur()
+        if getattr(c, 'family', None) and neg is not True and neg is not False:
+            # inside an independent-iterations loop a branch on the generic index is not available: the index must be a plain in-range
+            # ordinal for EVERY iteration (no IndexError, no negative wrap-around) -- an obligation, reported as a violation when it fails
+            inr = And(ops_cmp('>=', idx, 0), ops_cmp('<', idx, n))
+            if not c.prove(zbool(inr)):
+                c.require(inr, 'index_in_range_for_every_iteration_without_wraparound', kind='loop')
+            return idx
         idx2 = Ite(neg, ops_binop('+', idx, n), idx)
         ok = And(ops_cmp('>=', idx2, 0), ops_cmp('<', idx2, n))
         if not cur().decide(zbool(ok)):
